@@ -70,6 +70,8 @@ def oracle_fails(v: dict, oracles) -> list[str]:
         out.append("diff")
     if "sorted" in oracles and not v["sorted"]:
         out.append("sorted")
+    if "tmpdef" in oracles and not v.get("tmpdef", True):
+        out.append("tmpdef")
     if "wf" in oracles and not v["wf"]:
         out.append("wf")
     if "linear" in oracles and not v["linear"]:
@@ -85,7 +87,7 @@ def run(spec: Spec, tier: str) -> int:
     known_codes = {k["witness"]["code"]: k for k in known if "code" in k.get("witness", {})}
     with common.Lock():
         meta = regenerate(broken)
-        b2, binfo = common.build_property(spec.prop, ["model/Guards.vo", "sem/Diff.vo"])
+        b2, binfo = common.build_property(spec.prop, ["model/Guards.vo", "sem/Diff.vo", "proofs/SortSound.vo", "proofs/TmpDef.vo"])
         broken += b2
         model_ok = not any(x.kind in ("proof", "translator", "forbidden") for x in broken)
         progs = list(dict.fromkeys(spec.programs(tier, rnd)))
